@@ -17,7 +17,7 @@ META = dict(
     property="C24",
     level="exploration",
     technique="Hypothesis-generated requests and body-producer write schedules; strict structural request parser + h11 differential",
-    level_text="Random methods/targets (valid tokens and every class of invalid byte), header sets (multi-valued, odd whitespace, CR/LF and control bytes in values), bodies absent / known length / unknown length with sync and async write schedules including empty writes and producers that write more or less than they declared. Plus a complete enumeration of all 256 byte values at three positions of the method and of the target. Sizes: <= 6 headers, <= 6 writes of <= 40 bytes (some up to 300).",
+    level_text="Random methods/targets (valid tokens and every class of invalid byte), header sets (multi-valued, odd whitespace, CR/LF and control bytes in values), bodies absent / known length / unknown length with sync and async write schedules including empty writes and producers that write more or less than they declared, and twisted.web.client.FileBodyProducer over seekable and stream inputs with pipe-like short reads and read sizes 1..65536. Header names also as str, and invalid names (offered to Headers twice: acceptance must not depend on history). Plus a complete enumeration of all 256 byte values at three positions of the method and of the target. Sizes: <= 6 headers, <= 6 writes of <= 40 bytes (some up to 300).",
     level_note="Trusted: the strict parser in this file (RFC 9112 request-line, field lines, Content-Length / chunked framing, nothing after the message) and h11 0.16. Header names that collide with the framing headers the client adds itself (Host, Connection, Content-Length, Transfer-Encoding) are not generated. StringTransport is the transport double.",
     design_ref="§5 C24",
     rule="case = (method, target, headers, persistent, body writes + declared length + how many writes happen synchronously, API path). non-trivial = valid request whose body has unknown length and is non-empty (chunked framing exercised); distinct by (method, target, headers, writes, sync).",
@@ -202,6 +202,72 @@ def _mk():
         def resumeProducing(self):
             pass
 
+    class Stream:
+        """file-like input whose read(n) may return fewer than n bytes before the
+        end (pipe / socket file / raw stream): never across a piece boundary"""
+
+        def __init__(self, pieces):
+            self.data = b"".join(pieces)
+            self.bounds = []
+            t = 0
+            for p in pieces:
+                t += len(p)
+                self.bounds.append(t)
+            self.pos = 0
+            self.reads = 0
+            self.closed = False
+
+        def read(self, n=-1):
+            self.reads += 1
+            if self.closed:
+                return b""
+            end = len(self.data)
+            for b in self.bounds:
+                if b > self.pos:
+                    end = b
+                    break
+            if n is not None and n >= 0:
+                end = min(end, self.pos + n)
+            out = self.data[self.pos:end]
+            self.pos = end
+            return out
+
+        def close(self):
+            self.closed = True
+
+    class SeekableStream(Stream):
+        def seek(self, off, whence=0):
+            self.pos = off if whence == 0 else (self.pos + off if whence == 1 else len(self.data) + off)
+            return self.pos
+
+        def tell(self):
+            return self.pos
+
+    class Sched:
+        """scheduler for a task.Cooperator owned by the harness"""
+
+        def __init__(self):
+            self.q = []
+
+        def __call__(self, f):
+            self.q.append(f)
+            sched = self
+
+            class Call:
+                def cancel(self_):
+                    if f in sched.q:
+                        sched.q.remove(f)
+            return Call()
+
+        def pump(self, limit=10000):
+            n = 0
+            while self.q and n < limit:
+                n += 1
+                self.q.pop(0)()
+
+    Producer.Stream = Stream
+    Producer.SeekableStream = SeekableStream
+    Producer.Sched = Sched
     return Producer
 
 
@@ -224,11 +290,58 @@ def run_case(ctx, case):
     b = case.get("body")
     valid = is_token(method) and is_target(uri)
 
+    # The header set: what Headers accepts.  A name it refuses (InvalidHeaderName)
+    # is offered a second time, as a later request of the same process would:
+    # whether a name is acceptable must not depend on what happened before.
+    from twisted.web.http_headers import InvalidHeaderName
     headers = Headers()
+    accepted = []
+    bad_name_accepted = None
     for n, v in hdrs:
-        headers.addRawHeader(n, v)
+        nb = n.encode("iso-8859-1") if isinstance(n, str) else n
+        vb = v.encode("utf8") if isinstance(v, str) else v
+        for attempt in (1, 2):
+            try:
+                headers.addRawHeader(n, v)
+            except InvalidHeaderName:
+                continue
+            accepted.append((nb, vb))
+            if not is_token(nb):
+                bad_name_accepted = (nb, attempt)
+            break
+        if not is_token(nb):
+            ctx.count("invalid header name offered (twice)")
+        if isinstance(n, str):
+            ctx.count("str header name")
+    hdrs = accepted
     producer = None
-    if b is not None:
+    file_stream = None
+    if b is not None and b.get("file"):
+        from twisted.internet import task
+        from twisted.web.client import FileBodyProducer
+        from twisted.web.iweb import UNKNOWN_LENGTH
+        pieces = [p for p in b["pieces"] if p]
+        file_stream = (Producer.SeekableStream if b.get("seekable") else Producer.Stream)(pieces)
+        sched = Producer.Sched()
+        per_tick = bool(b.get("per_tick"))
+        coop = task.Cooperator(terminationPredicateFactory=lambda: (lambda: per_tick), scheduler=sched)
+        producer = FileBodyProducer(file_stream, cooperator=coop, readSize=b["readSize"])
+        total_ = len(file_stream.data)
+        ctx.check(producer.length == (total_ if b.get("seekable") else UNKNOWN_LENGTH), "file-body-length-wrong", case,
+                  f"length={producer.length!r} for {total_} bytes, seekable={b.get('seekable')}")
+        orig_start = producer.startProducing
+
+        def counted_start(consumer):
+            producer.started += 1
+            return orig_start(consumer)
+        producer.started = 0
+        producer.startProducing = counted_start
+        producer.finish = sched.pump
+        short = any(len(p) < b["readSize"] for p in pieces[:-1])
+        fileinfo = dict(short_read_before_eof=short, readSize=b["readSize"], seekable=bool(b.get("seekable")))
+        # from here on the file body is "a body whose writes are the pieces"
+        b = dict(declared=total_ if b.get("seekable") else None, writes=pieces, sync=0, file=fileinfo)
+    elif b is not None:
         producer = Producer(b["declared"], b["writes"], b.get("sync", 0), bool(b.get("fire_sync")))
     tr = StringTransport()
     outcome = []          # ("ok", None) | ("err", Failure)
@@ -272,6 +385,7 @@ def run_case(ctx, case):
                   case, f"method={method!r} target={uri!r} wrote {tr.value()!r}")
         ctx.check(tr.value() == b"", "bytes-written-before-refusal", case, repr(tr.value()))
         ctx.check(producer is None or producer.started == 0, "body-producer-started-before-refusal", case, "")
+        ctx.check(file_stream is None or file_stream.reads == 0, "body-file-read-before-refusal", case, "")
         return
     ctx.check(refused is None, "valid-request-refused", case, f"method={method!r} target={uri!r}: {refused!r}")
 
@@ -321,6 +435,9 @@ def run_case(ctx, case):
     has_empty_write = unknown and any(len(w) == 0 for w in b["writes"])
 
     def classify(default):
+        if bad_name_accepted is not None:
+            return ("invalid-header-name-on-the-wire:" +
+                    ("accepted-at-once" if bad_name_accepted[1] == 1 else "accepted-after-being-refused"))
         # the one known root cause gets its own signature: every write, also
         # an empty one, became a chunk of its own
         if has_empty_write:
@@ -349,7 +466,7 @@ def run_case(ctx, case):
         ctx.check(p["framing"] == "cl", "known-length-body-not-content-length", case, repr(p["headers"]))
     got = sorted((n, _collapse(v)) for n, v in p["headers"] if n not in FRAMING)
     exp = sorted((n.lower(), norm_value(v)) for n, v in hdrs)
-    ctx.check(got == exp, "headers-differ", case, f"on the wire {got}\nintended {exp}\nwire={wire!r}")
+    ctx.check(got == exp, classify("headers-differ"), case, f"on the wire {got}\nintended {exp}\nwire={wire!r}")
     conn = [v.lower() for n, v in p["headers"] if n == b"connection"]
     ctx.check(conn == ([] if persistent else [b"close"]), "connection-header-wrong", case,
               f"persistent={persistent} Connection={conn}")
@@ -376,6 +493,10 @@ def run_case(ctx, case):
     # ---- bookkeeping ------------------------------------------------------------
     kind = "none" if b is None else ("unknown" if unknown else "known")
     ctx.count("body=" + kind)
+    if b is not None and b.get("file"):
+        ctx.count("body from FileBodyProducer (" + ("seekable" if b["file"]["seekable"] else "stream") + ")")
+        if b["file"]["short_read_before_eof"]:
+            ctx.count("file body: short read before the end of the input")
     ctx.count("via=" + via + (" set_after" if set_after else ""))
     if b is not None:
         n = len(b["writes"])
@@ -420,6 +541,10 @@ def insert_bad(draw, base, bad):
 
 HNAME = st.one_of(st.sampled_from([b"Accept", b"User-Agent", b"X-Thing", b"cookie", b"ETag", b"te", b"x", b"A-b-C"]),
                   _tok).filter(lambda n: n.lower() not in FRAMING and n.lower() != b"host")
+HNAME_BAD = st.one_of(
+    st.sampled_from([b"X-Trace\r\nX-Admin", b"X A", b"", b"X:", b"X\n", b"\xe9", b"A\x00B", b"X-Bad ",
+                     b"X\r\n\r\nGET /evil HTTP/1.1\r\nHost", b"(x)", "X Str", "X-Str\r\nY", "caf\u00e9"]),
+    insert_bad(HNAME, BADBYTES))
 _vtext = st.binary(max_size=14).map(lambda x: bytes(0x20 + c % 95 for c in x))
 HVALUE = st.one_of(
     st.sampled_from([b"", b"a", b"text/html, */*;q=0.8", b" lead", b"trail ", b"a  b", b"\xc3\xa9t\xe9", b"x\ty"]),
@@ -446,12 +571,24 @@ def request(draw):
         uri = draw(st.one_of(insert_bad(TARGET_OK, TARGET_BAD), st.just(b"")))
     headers = [[b"Host", draw(st.sampled_from([b"example.com", b"a:8080", b"[::1]"]))]]
     for _ in range(draw(st.integers(0, 5))):
-        headers.append([draw(HNAME), draw(HVALUE)])
+        k = draw(st.integers(0, 11))
+        if k == 0:
+            headers.append([draw(HNAME_BAD), draw(HVALUE)])
+        elif k == 1:
+            headers.append([draw(HNAME).decode("ascii"), draw(st.sampled_from(["v", "caf\u00e9", "a b", ""]))])
+        else:
+            headers.append([draw(HNAME), draw(HVALUE)])
     k = draw(st.integers(0, len(headers) - 1))
     headers = headers[1:k + 1] + headers[:1] + headers[k + 1:]
-    bk = draw(st.sampled_from(["none", "known", "known", "unknown", "unknown"]))
+    bk = draw(st.sampled_from(["none", "known", "known", "unknown", "unknown", "file", "file"]))
     body = None
-    if bk != "none":
+    if bk == "file":
+        # the stock producer of twisted.web.client over a file-like object whose
+        # reads are segmented like a pipe's: each read returns at most one piece
+        body = dict(file=True, pieces=draw(st.lists(_WRITE, max_size=5)),
+                    readSize=draw(st.sampled_from([1, 2, 3, 4, 5, 8, 16, 64, 65536])),
+                    seekable=draw(st.booleans()), per_tick=draw(st.booleans()))
+    elif bk != "none":
         writes = draw(st.lists(WRITE, max_size=6))
         if bk == "known" and draw(st.integers(0, 3)) == 0:
             writes = [w for w in writes] or [b""]
